@@ -7,8 +7,9 @@ Three-way comparison on every generated case:
 """
 import json
 from vlib import coq, coqlit as L
+from props import c17_if
 
-PROPERTY_FILES = ["C17/Properties.v"]
+PROPERTY_FILES = ["C17/Properties.v"] + c17_if.PROPERTY_FILES_EXTRA
 
 META_TOP = '\\"\'$'
 CTX_META = {"top": META_TOP, "dq": META_TOP, "name": META_TOP + ":-+}", "body": META_TOP + "}",
@@ -554,7 +555,9 @@ def run(ctx):
                 "non-trivial when its text contains a substitution/quote/escape; distinct by (ctx,text)")
     ctx.assumptions += [
         "re/fnmatch based functions (match, resubst, matchScm) are not modelled (model result Ext, never generated on the model side)",
-        "pyparsing grammar of if-expressions is not modelled: ASTs are rendered and parsed by the real grammar",
+        "pyparsing itself is not verified: the concrete if-expression grammar as instantiated by stringparser.py is modelled as a "
+        "PEG (C17/IfGrammar.v: parse_if, theorems parse_if_render, precedence/associativity, single_quoted_literal_verbatim) and compared "
+        "with the real parser's object tree on rendered ASTs, token soups and Coq-rendered texts (props/c17_if.py)",
         "Python str.strip/str.lower facts are regenerated from the running interpreter into Gen/Consts.v",
     ]
     if ctx.replay:
@@ -736,6 +739,8 @@ Definition spec_ok (o : bool * res str * str * res str) (e : res str * str) : bo
         ctx.count("ifraw:" + r[0])
         if r[0] == "internal":
             ctx.violation("if-internal-exception:" + r[1], "IfExpression(%r) raised %s" % (text, r[1]), {"cx": cxs[0], "ifexpr": text})
+    # concrete syntax of if-expressions: Coq PEG model vs the real pyparsing grammar, documented precedence
+    c17_if.run_ifgrammar(ctx)
 
 
 PRE_EQB = """
